@@ -221,12 +221,14 @@ def r3_queue(ctx):
                 kinds.add(role)
             elif ok:
                 fresh = T.typed(calllog.call_term(ins[0]), 'bool')
-                if fresh in o.state.pcset:
-                    ok = len(pb) == 1 and o.value == TRUE and pb[0][1][1] in (el, ins[0][1][1])
+                if ip.entails(o.state, fresh):
+                    ok = len(pb) == 1 and isinstance(o.value, tuple) and ip.entails(o.state, o.value) and pb[0][1][1] in (el, ins[0][1][1])
                     role = 'new-element-enqueued'
-                else:
-                    ok = not pb and o.value == FALSE
+                elif ip.entails(o.state, NOT(fresh)):
+                    ok = not pb and isinstance(o.value, tuple) and ip.entails(o.state, NOT(o.value))
                     role = 'known-element-not-enqueued'
+                else:
+                    ok, role = False, 'single-membership-test'
                 kinds.add(role)
             else:
                 role = 'single-membership-test'
